@@ -422,6 +422,10 @@ impl<MutexType: RawMutex, T: Clone> ChannelReceiveAccess<T>
     }
 }
 
+#[cfg(kani)]
+#[path = "/verif/kani/state_broadcast.rs"]
+mod kani_verif;
+
 // Export a non thread-safe version using NoopLock
 
 /// A [`GenericStateBroadcastChannel`] which is not thread-safe.
